@@ -77,3 +77,34 @@ FAMILIES = [
 ]
 FAMILIES[-1].classify = classify_lp
 FAMILIES[-1].corr = corr_lp
+
+# ---------------------------------------------------------------------------------------------------------------------
+# Model level: Model::minimize / Model::maximize themselves (model/core.rs: maximize as minimize of the opposite view, the
+# search fallback, how the Solution is read back) are exercised through the posting-routes and fluent families of C01/C10
+# restricted to optimisation entries, and rewritten so that EVERY case is an optimisation (the seeded change C04c —
+# an early exit in Model::minimize comparing the raw variable with the view's bound — was invisible to the engine-level
+# families above).  Same family names as in vlib/props/routes.py / c10.py, so their known-finding entries apply.
+import copy as _copy, random as _random
+from . import routes as _routes, c10 as _c10
+def _as_opt(f, frac):
+    g = _copy.copy(f)
+    base = f.gen
+    def gen(tier, rng):
+        out = []
+        for c in base(tier, rng):
+            parts = [p.strip() for p in c.split(";")]
+            e = _c10.entry_of(c)
+            if e[0] in ("min", "max"):
+                out.append(c); continue
+            if e[0] in ("enum", "first") and parts[-1].split()[0] in ("enum", "first") and rng.random() < frac:
+                if "(" in parts[0] or not parts[0]: continue          # array factories: the number of handles is not the number of tokens
+                nd = len(parts[0].split("|"))
+                out.append(" ; ".join(parts[:-1] + ["%s x%d" % (rng.choice(["min", "max"]), rng.randrange(nd))]))
+        return out
+    g.gen = gen
+    g.takes_witnesses = False      # C04's own witnesses are propagator-level case lines (other grammar)
+    return g
+_model_level = [_as_opt(f, 0.25) for f in _routes.FAMILIES if f.sub == "rsolve"] + [_as_opt(f, 0.5) for f in _c10.FAMILIES if f.sub == "msolve"]
+FAMILIES += _model_level
+KNOWN_PIDS = sorted(set(["C04"] + list(_routes.KNOWN_PIDS) + list(getattr(_c10, "KNOWN_PIDS", []))))
+SHARED_CLASSES = tuple(sorted(set(_routes.SHARED_CLASSES) | set(getattr(_c10, "SHARED_CLASSES", ()))))
